@@ -397,6 +397,30 @@ def rule_stepper_wrappers(chk):
         chk.undecided('stepper-wrappers-complete', 'one-wrapper-per-stepper-class:model-run', node=fn, file=IHF, func='IntegratorCythonHelper.get_stepper_code', detail='not interpretable: %s' % e)
 
 
+def rule_typed_array_declarations(chk):
+    """AccelerationEvalCythonHelper.get_array_declarations interpreted (E8) on a model problem with an integer and an unsigned-integer property next to the double ones: the
+    d_* / s_* pointers of the generated evaluator are declared with the element type of the property they point into - `double*` for an int array (orig_idx, tag of the ghost
+    update groups) is rejected by Cython, no code is generated"""
+    from verif_static import emit as EM, absint as AI
+    AH = 'pysph/sph/acceleration_eval_cython_helper.py'
+    EQF = 'pysph/sph/equation.py'
+    fn = M.find_method(M.py(AH), 'AccelerationEvalCythonHelper', 'get_array_declarations')
+    try:
+        it = EM.interpreter()
+        grp = EM.instance(it, EQF, 'CythonGroup', get_array_names=lambda i, a, k, n, e: (set(['s_x', 's_tag']), set(['d_x', 'd_orig_idx', 'd_gid'])))
+        kt = {'d_orig_idx': EM.mock(type='int*'), 's_tag': EM.mock(type='int*'), 'd_gid': EM.mock(type='unsigned int*'), 's_gid': EM.mock(type='unsigned int*'),
+              'd_x': EM.mock(type='double*'), 's_x': EM.mock(type='double*')}
+        h = EM.instance(it, AH, 'AccelerationEvalCythonHelper', object=EM.mock(all_group=grp), known_types=kt)
+        txt = str(EM.call(it, h, 'get_array_declarations'))
+        got = dict((l_.split()[-1], ' '.join(l_.split()[1:-1])) for l_ in txt.splitlines() if l_.strip().startswith('cdef'))
+        want = {'d_orig_idx': 'int*', 's_tag': 'int*', 'd_gid': 'unsigned int*', 'd_x': 'double*', 's_x': 'double*'}
+        chk.decide(got == want, 'typed-array-declarations', 'model-run', node=fn, file=AH, func='AccelerationEvalCythonHelper.get_array_declarations',
+                   detail_bad='for arrays d_x, s_x (double), d_orig_idx, s_tag (int), d_gid (unsigned int) the evaluator declares %s; expected %s' % (got, want),
+                   detail_ok='every pointer declared with the type of its property')
+    except (AI.Unsupported, AI.Raised) as e:
+        chk.undecided('typed-array-declarations', 'model-run', node=fn, file=AH, func='AccelerationEvalCythonHelper.get_array_declarations', detail='not interpretable: %s' % e)
+
+
 def U(n_):
     return M.unparse(n_)
 
@@ -425,16 +449,19 @@ def main(chk):
     c03.rule_regroup(chk)
     # the integrator's steppers reach the generated code: every stepper class in use gets its wrapper (model run)
     rule_stepper_wrappers(chk)
+    rule_typed_array_declarations(chk)
     chk.floor('Scheme subclasses', len(schemes), 17)
     total_cfg = 0
     total_sites = 0
     n_div = [0]
+    n_data = [0]
     for rel, cls, own in schemes:
         who = cls.name
         if not own:
             chk.note('%s provides no setup_properties (outside the property)' % who)
             continue
         self_pair = {}
+        it0_mro = A.Interp(ci, A.Config([])).mro(A.ClassRef(rel, cls))          # [(rel, ClassDef)] of the scheme and its bases
         missing = {}      # (kind, class, role, prop) -> (config text, node, rel, count)
         counted = set()
         ctor = {}
@@ -545,6 +572,22 @@ def main(chk):
             continue
         total_cfg += ncfg
         total_sites += len(sites)
+        # an initial value that setup_properties computes for a property (add_property(name, data=...)) is applied in at least one configuration: a call that no configuration
+        # reaches - e.g. because the property has already been created, without data, a few lines earlier - leaves the property at its default (0) although the equations of
+        # the scheme start from the computed guess (and divide by it)
+        if ncfg > 0:
+            for r_sp, c_sp in it0_mro:
+                sp_fn = M.methods(c_sp).get('setup_properties')
+                if sp_fn is None:
+                    continue
+                for c_ in M.calls(sp_fn):
+                    if isinstance(c_.func, ast.Attribute) and c_.func.attr == 'add_property' and any(k_.arg == 'data' for k_ in c_.keywords):
+                        n_data[0] += 1
+                        chk.decide((r_sp, c_.lineno) in A.DATA_SITES_EXECUTED, 'initial-values-applied', '%s:%s@%d' % (who, U(c_.args[0]) if c_.args else '?', c_.lineno), node=c_, file=r_sp,
+                                   func='%s.setup_properties' % c_sp.name,
+                                   detail_bad='`%s` is reached in none of the %d configurations of %s (the property exists already when the call is guarded by "not yet there"): '
+                                              'the property keeps its default instead of the computed initial value the scheme\'s equations start from' % (U(c_)[:70], ncfg, who),
+                                   detail_ok='executed')
         chk.unit('configurations:%s' % who, {'explored': ncfg, 'rejected by the scheme (explicit raise)': nrej, 'construction sites': len(sites)})
         for key, (conf, node, r2) in sorted(crashes.items()):
             chk.violated('setup-completes', '%s:%s' % (who, key[:70]), node=node, file=r2 or rel, func=who,
